@@ -614,7 +614,7 @@ def run(ctx):
                     continue
                 cases.append({"series": sr, "dim": dim, "tau": tau,
                               "thr": thr, "md": md, "nsur": nsur,
-                              "bound": 2 if thorough else 1, "seed": seed})
+                              "bound": 2 if sr in reps else 1, "seed": seed})
     ctx.explore("rp", cases, desc="RecurrencePlot.twins/twin_surrogates")
     ctx.rule = (
         "hist: data = N=1 arrays of length 4 and 5 over {0,1,3} (%s), N=2 "
@@ -625,9 +625,10 @@ def run(ctx):
         "(outputs of call 1,2,3 all judged, so the one- and two-call "
         "histories are covered as prefixes) and ordered pairs of different "
         "generators (N=1 and fixed arrays; N=2: thorough only, without the "
-        "twin generator); random source: shuffle -> every permutation (n_time<=5; "
-        "6 fixed ones beyond), uniform phases -> every row vector over "
-        "{0,pi/2,pi,3pi/2,1.234} (len<=3; per element beyond), randn -> 3 "
+        "twin generator); random source: shuffle -> every permutation "
+        "(n_time<=5; 6 fixed ones beyond), uniform phases -> every row "
+        "vector over {0,pi/2,pi,3pi/2,1.234} (len<=3; per element beyond), "
+        "randn -> 3 "
         "reference draws, twin walk -> {0,1/4,1/2,3/4,0.999}; option 0 = "
         "seeded default; all executions with <= bound deviations.  rp: the "
         "N=1 rows and the fixed rows x (dim,tau) in {(1,1),(2,1)} x threshold "
@@ -638,10 +639,10 @@ def run(ctx):
             "shift and time reversal: 21 + 39 rows", len(LONG)))
     ctx.notes.update({
         "deviation_bound": (
-            "1 for all cases; 2 for the twin sweep on the N=1 bracelet "
-            "representatives of length 4" + (
-                " and 5, for %d history cases on length-4 rows, for the "
-                "single-row fixed arrays and RecurrencePlot" % n2
+            "1 for all cases; 2 for the twin sweep and RecurrencePlot on "
+            "the N=1 bracelet representatives of length 4" + (
+                " and 5, for %d history cases on length-4 rows and for the "
+                "single-row fixed arrays" % n2
                 if thorough else "")),
         "horizon": "(4*n_time*N+8N+8) draws per call; 4*n_time*n_surrogates+4"
                    " for RecurrencePlot; executions cut by the horizon are "
